@@ -165,7 +165,9 @@ func NumberOfInducedPaths(g Graph, maxLength int) []int {
 
 				options := sortints.SetMinus(h.Neighbours(p.p[len(p.p)-1]), p.bannedNeighbours)
 
-				r[p.length+1] += len(options)
+				if p.length+1 <= maxLength {
+					r[p.length+1] += len(options)
+				}
 
 				if p.length >= maxLength-1 {
 					continue
